@@ -470,6 +470,11 @@ Definition m_update_qm (o : state) (s : state) : res :=
     let s1 := with_vars s (st_vars s ++ filter (fun i => negb (has_var s (v_lab i))) (st_vars o)) in
     ok (with_poly s1 (padd (st_poly s1) (st_poly o))).
 
+(* cyQM.add_linear(v, bias, default_vartype=vt, default_lower_bound=lb, default_upper_bound=ub):
+   an existing label ignores the defaults, an unknown one is created first *)
+Definition q_add_linear_dflt (v : label) (b : Qc) (vt : vartype) (lb ub : option Qc) (s : state) : res :=
+  if has_var s v then d_add_linear v b s else q_add_variable vt v lb ub s >>= d_add_linear v b.
+
 (* ---------- operations ---------- *)
 Inductive op :=
 | OAddVariable (v : label) (b : Qc)
@@ -498,6 +503,7 @@ Inductive op :=
 | OFix (v : label) (a : Qc)
 | OQAddVariable (vt : vartype) (v : label) (lb ub : option Qc)
 | OQAddLinearDflt (v : label) (b : Qc) (vt : vartype) (lb ub : option Qc)
+| OQAddLinearFromDflt (l : list (label * Qc)) (vt : vartype) (lb ub : option Qc)   (* add_linear_from loop *)
 | OQAddVariablesFrom (vt : vartype) (l : list label)
 | OQSetLb (v : label) (b : Qc)
 | OQSetUb (v : label) (b : Qc)
@@ -545,10 +551,10 @@ Definition step (s : state) (ho : handle * op) : res :=
   | OChangeVartype vt => if is_bqm s then m_change_vartype_bqm vt s else raise BOther s
   | OFix v a => m_fix h v a s
   | OQAddVariable vt v lb ub => if is_bqm s then raise BOther s else q_add_variable vt v lb ub s
-  | OQAddLinearDflt v b vt lb ub =>
+  | OQAddLinearDflt v b vt lb ub => if is_bqm s then raise BOther s else q_add_linear_dflt v b vt lb ub s
+  | OQAddLinearFromDflt l vt lb ub =>
       if is_bqm s then raise BOther s
-      else if has_var s v then d_add_linear v b s
-      else q_add_variable vt v lb ub s >>= d_add_linear v b
+      else seqm (fun t => q_add_linear_dflt (fst t) (snd t) vt lb ub) l s
   | OQAddVariablesFrom vt l => if is_bqm s then raise BOther s else seqm (fun v => q_add_variable vt v None None) l s
   | OQSetLb v b => if is_bqm s then raise BOther s else q_set_lb v b s
   | OQSetUb v b => if is_bqm s then raise BOther s else q_set_ub v b s
@@ -559,7 +565,7 @@ Definition step (s : state) (ho : handle * op) : res :=
 Definition atomic (o : op) : bool :=
   match o with
   | OAddLinearFrom _ | OAddQuadraticFrom _ | ORemoveVariablesFrom _ | ORemoveInteractionsFrom _
-  | OQAddVariablesFrom _ _ => false
+  | OQAddVariablesFrom _ _ | OQAddLinearFromDflt _ _ _ _ => false
   | _ => true
   end.
 
